@@ -420,6 +420,20 @@ func c02RandomCanonical(r *hx.Rand, nsym int) ([16]int, []byte) {
 
 func c02CanonCase(c *hx.Ctx, bits [16]int, values []byte, tag string) {
 	c.Count("canon:" + tag)
+	// jll-build: HuffmanTable.Build itself (ok | err | panic)
+	var berr error
+	bpan, _ := hx.Guard(func() {
+		t := &standard.HuffmanTable{Bits: bits, Values: append([]byte{}, values...)}
+		berr = t.Build()
+	})
+	breal := "ok"
+	if bpan {
+		breal = "panic"
+	} else if berr != nil {
+		breal = "err"
+	}
+	c.Count("canon:build-" + breal)
+	c.Case("jll-build "+c02TableOp(bits, values), breal)
 	var codes []standard.HuffmanCode
 	pan, _ := hx.Guard(func() {
 		t := standard.BuildStandardHuffmanTable(bits, values)
@@ -437,8 +451,6 @@ func c02CanonCase(c *hx.Ctx, bits [16]int, values []byte, tag string) {
 		if len(ent) > 0 {
 			real = "ok " + strings.Join(ent, ",")
 		}
-	} else {
-		c.Count("canon:build-panic")
 	}
 	c.Case("jll-canon "+c02TableOp(bits, values), real)
 }
@@ -654,6 +666,23 @@ func c02Kernels(c *hx.Ctx) {
 		}
 		c.Case(fmt.Sprintf("jll-readbits %s %s", hx.Hex(rd), c02IntsStr(ns)), real)
 	}
+	// jll-opt on profiles deeper than 32 (outside the 17-symbol lossless alphabet): outcome class must agree (panic)
+	for _, nsym := range []int{31, 32, 33, 34, 40, 60} {
+		var freq [256]uint64
+		fs := make([]int, 256)
+		for s := 0; s < nsym; s++ { // 3^s-like growth would overflow; 2^s with distinct exponents gives depth nsym
+			freq[s] = uint64(1) << uint(s+1)
+			fs[s] = 1 << uint(s+1)
+		}
+		var ot *standard.HuffmanTable
+		pan, _ := hx.Guard(func() { ot = standard.BuildOptimalHuffmanTable(freq) })
+		real := "panic"
+		if !pan {
+			real = "ok " + c02TableOp(ot.Bits, ot.Values)
+		}
+		c.Case("jll-opt "+c02IntsStr(fs), real)
+		c.Count(fmt.Sprintf("opt-deep:%d:%s", nsym, real[:2]))
+	}
 	// jll-canon / jll-hdec: standard, optimal, random valid, invalid tables
 	var lumBits [16]int
 	copy(lumBits[:], []int{0, 1, 5, 1, 1, 1, 1, 1, 1, 0, 0, 0, 0, 0, 0, 0})
@@ -689,6 +718,17 @@ func c02Kernels(c *hx.Ctx) {
 		}
 		var ot *standard.HuffmanTable
 		pan, msg := hx.Guard(func() { ot = standard.BuildOptimalHuffmanTable(freq) })
+		{ // jll-opt: the code-shaped model of BuildOptimalHuffmanTable on the same frequencies
+			fs := make([]int, 256)
+			for s := range fs {
+				fs[s] = int(freq[s])
+			}
+			real := "panic"
+			if !pan {
+				real = "ok " + c02TableOp(ot.Bits, ot.Values)
+			}
+			c.Case("jll-opt "+c02IntsStr(fs), real)
+		}
 		c.Eval(fmt.Sprintf("opt|%v", freq), true)
 		if pan {
 			c02Fail(c, hx.Failure{Class: "jll-opt-panic", What: "BuildOptimalHuffmanTable panics: " + msg, Input: map[string]any{"freq": fmt.Sprint(freq)}})
